@@ -15,7 +15,10 @@ import (
 	"github.com/thanos-community/promql-engine/execution/parse"
 )
 
-var InvalidSample = promql.Sample{Point: promql.Point{T: -1, V: 0}}
+// InvalidSample marks the absence of a result. Its timestamp must not be one a
+// query can be evaluated at: with -1 a function value of 0 at the evaluation
+// time 1ms before the epoch was taken for the marker and dropped.
+var InvalidSample = promql.Sample{Point: promql.Point{T: math.MinInt64, V: 0}}
 
 type FunctionArgs struct {
 	Labels       labels.Labels
